@@ -990,12 +990,24 @@ class NetworkServiceElement(ApplicationServiceElement):
         sap = self.elementService
         if _debug: NetworkServiceElement._debug("    - sap: %r", sap)
 
+        # only news is passed along to the other networks, an announcement
+        # that says what is already known has been relayed before and would
+        # otherwise travel around a cycle in the topology for ever
+        news = False
+        for dnet in npdu.iartnNetworkList:
+            router_info = sap.router_info_cache.get_router_info(adapter.adapterNet, dnet)
+            if (router_info is None) or (router_info.address != npdu.pduSource):
+                news = True
+
         # pass along to the service access point
         sap.update_router_references(adapter.adapterNet, npdu.pduSource, npdu.iartnNetworkList)
 
         # skip if this is not a router
         if len(sap.adapters) == 1:
             if _debug: NetworkServiceElement._debug("    - not a router")
+
+        elif not news:
+            if _debug: NetworkServiceElement._debug("    - nothing new")
 
         else:
             if _debug: NetworkServiceElement._debug("    - forwarding to other adapters")
